@@ -9,7 +9,9 @@ RULE = ("self-describing scripts; the generator tracks, for every function value
         "non-identifier keys), read through `.`/`[]` chains of depth 1..3 (also through an object reached via a list or via "
         "another object), copy to a variable, reassign, put in a list / replace a list slot / append, return from a getter, pass "
         "as an argument to a runner, run through a runner that is itself a method, list-destructure, make a closure inside a "
-        "method, call} over 3 objects + 1 nested object and functions of arity 0..2 with/without a rest parameter, every call "
+        "method, keep a list in an object and index it there (`o.hs[i]`: the item is what was stored, the list's own source gives it "
+        "nothing), take the item of a `for` over a list (pattern target and pair target), call — directly, through runners, "
+        "through spreads, as the loop item of a `for`} over 3 objects + 1 nested object and functions of arity 0..2 with/without a rest parameter, every call "
         "with tracing arguments; functions with no source and no enclosing `this` are predicted to fail. Stream `arity`: "
         "arities 0..4 +/- rest x argument counts 0..5 x plain/spread splits, every argument a tracing call (each printed once, "
         "left to right, also when the count check then fails), direct and method calls. Stream `params`: assignment / "
@@ -17,7 +19,7 @@ RULE = ("self-describing scripts; the generator tracks, for every function value
         "and closures over parameters. non-trivial = distinct (step-kind sequence, outcome class)")
 ASSUMPTIONS = ["`this` is not used as a parameter name; no error is raised inside a `return` expression (both are the subject "
                "of C17 repairs)",
-               "object destructuring and `for` over an object are not used to move function values: the statement says nothing "
+               "object destructuring and `for` over an OBJECT are not used to move function values: the statement says nothing "
                "about the source they carry"]
 
 TAGS = {"o1": "T1", "o2": "T2", "o3": "T3", "inner": "T2i"}
@@ -131,6 +133,15 @@ class World:
         for name, items in self.lists.items():
             for i, fv in enumerate(items):
                 cands.append((f"{name}[{i}]", fv))
+        # a list kept in an object: the ITEM is what was stored (with the source it had then); that the list itself was
+        # read from an object gives its items nothing
+        for ref, obj in self.refs().items():
+            for key, v in obj.slots.items():
+                if isinstance(v, list):
+                    dot = L.is_ident(key) and rng.random() < 0.5
+                    ltext = f"{ref}.{key}" if dot else f"{ref}[{L.str_lit(key)}]"
+                    for i, fv in enumerate(v):
+                        cands.append((f"{ltext}[{i}]", fv))
         for name, thunk in self.getters.items():
             fv = thunk()
             if fv is not None:
@@ -182,6 +193,8 @@ class World:
             stmt = f"run({', '.join(['[' + text + ']..'] + texts)})"
         elif via == "spread-list":     # … or through a spread list item
             stmt = f"[[{text}]..][0]({', '.join(texts)})"
+        elif via == "for-item":        # … or as the item of a `for` over a list that holds it
+            stmt = f"for [i_, j_] in [0, {text}] {{ if i_ == 1 {{ j_({', '.join(texts)}); }}; }}"
         else:   # the runner is itself reached through an object: its own `this` must not leak into the callee
             stmt = f"o3.go({', '.join([text] + texts)})"
         for v in vals:
@@ -337,12 +350,37 @@ class World:
             sc.stmt(f"{name} := {text}()")
             self.vars[name] = FV("inner", None, fv.src if fv.src is not None else fv.cthis)
             sc.tags.append("closure-in-method" if fv.src is not None else "closure-no-this")
+        elif c < 75 and self.lists:                   # a list kept in an object (the same list, not a copy)
+            refs = self.refs()
+            ref = rng.choice(sorted(refs))
+            obj = refs[ref]
+            ln = rng.choice(sorted(self.lists))
+            key = rng.choice(["hs", "h s", "jobs"])
+            dot = L.is_ident(key) and rng.random() < 0.5
+            sc.stmt(f"{ref}.{key} = {ln}" if dot else f"{ref}[{L.str_lit(key)}] = {ln}")
+            obj.slots[key] = self.lists[ln]
+            if rng.random() < 0.5:                    # … and read back into a variable: still the same list
+                name = self.fresh("l")
+                sc.stmt(f"{name} := {ref}.{key}" if dot else f"{name} := {ref}[{L.str_lit(key)}]")
+                self.lists[name] = self.lists[ln]
+            sc.tags.append("list-in-object")
+        elif c < 80 and self.lists:                   # the item of a `for` over a list is the stored item
+            ln = rng.choice(sorted(self.lists))
+            k = rng.randrange(len(self.lists[ln]))
+            name = self.fresh("g")
+            sc.stmt(f"{name} := null")
+            if rng.random() < 0.5:
+                sc.stmt(f"for [i_, j_] in {ln} {{ if i_ == {k} {{ {name} = j_; }}; }}")
+            else:
+                sc.stmt(f"for pr_ in {ln} {{ if pr_[0] == {k} {{ {name} = pr_[1]; }}; }}")
+            self.vars[name] = self.lists[ln][k]
+            sc.tags.append("for-item")
         else:                                         # call
             fe = self.fexpr(for_call=True)
             if fe is None:
                 return
             text, fv = fe
-            via = rng.choice(["direct", "direct", "runner", "method-runner", "spread-runner", "spread-list"])
+            via = rng.choice(["direct", "direct", "runner", "method-runner", "spread-runner", "spread-list", "for-item"])
             if via == "method-runner" and "go" not in self.objs["o3"].slots:
                 sc.stmt("o3.go = run")
                 self.objs["o3"].slots["go"] = FV("run")
